@@ -22,7 +22,11 @@ def formulas_for(sig, quick):
     if len(sig) == 2:
         mp = {"a": sig[0], "b": sig[1]}
         return [forms.rename(f, mp) for f in scopes.F2 + scopes.F2S]
-    ms = range(0, 256, 9) if quick else range(256)
+    if len(sig) == 3:
+        ms = range(0, 256, 9) if quick else range(256)
+    else:       # 4+ atoms: a fixed stride sample of the 2^(2^n) truth functions
+        top = 1 << (1 << len(sig))
+        ms = range(1, top, top // (12 if quick else 60) + 1)
     out = []
     for m in ms:
         out.append(forms.dnf(sig, m))
@@ -37,6 +41,12 @@ def conds_for(sig, quick):
         return [(B, A_) for A_ in fs for B in fs]
     if len(sig) == 2:
         return scopes.semclass_reps(scopes.C2, sig) + scopes.C2S[::17]
+    if len(sig) >= 4:
+        full = forms.allmask(sig)
+        out = [(V(sig[1]), V(sig[0])), (N(V(sig[3])), A(V(sig[0]), V(sig[2]))), (O(V(sig[2]), V(sig[3])), N(V(sig[1]))), (V(sig[0]), BOT)]
+        for v, f in [(1, full & ~1), (0x00F0, 0x0F00), (0x8000, 0x0001), (0x5555 & full, 0xAAAA & full), (0, 1)]:
+            out.append(scopes.render_query(sig, (v & full, f & full & ~v)))
+        return out
     out = list(scopes.L3[::3]) + scopes.literal_queries3()[24::5]
     sems = []
     for v, f in [(0b00000001, 0b10000000), (0b00111100, 0b11000011), (0b00010000, 0b00001000), (0b01010101, 0b10101010), (0, 0b1), (0b1, 0)]:
@@ -147,14 +157,14 @@ class C18(Check):
     level = "exploration"
     rule = ("E-in. Rank tables: ALL total assignments worlds -> {0..3} over 1 atom (16) and 2 atoms (256), over 3 atoms all "
             "assignments -> {0,1} (256) plus all tables with <=2 non-zero worlds and ranks <=3 (thorough: all 6 561 tables "
-            "-> {0..2}); custom objects built with init_custom, plus System Z objects for the structure representatives of "
+            "-> {0..2}), over 4 atoms four fixed asymmetric tables (thorough: plus all 120 tables with two non-zero worlds); custom objects built with init_custom, plus System Z objects for the structure representatives of "
             "pairs over {a,b} (both modes). Per table: formula_rank for every formula of the family (all 16 truth functions in "
             "two syntactic forms; DNF/CNF of truth functions over 3 atoms), conditional_acceptance for every conditional of "
             "the family, marginalize for every proper non-empty atom subset (table and formula ranks over the remaining "
             "atoms), both conditionalisations for every formula, ranks2tpo and tpo2ranks under four layer numberings; oracle: "
             "the five laws evaluated by brute force. distinct_nontrivial = distinct (table, operation, argument) with a "
             "non-degenerate argument.")
-    assumptions = ["signatures of 1-3 atoms only (the property mentions up to 6)", "reference arithmetic in vf/checks/c18.py"]
+    assumptions = ["signatures of 1-4 atoms (the property mentions up to 6); over 4 atoms only a fixed family of tables", "reference arithmetic in vf/checks/c18.py"]
 
     def tasks(self):
         quick = self.tier == "quick"
@@ -178,6 +188,17 @@ class C18(Check):
         self.n3 = len(t3)
         for i in range(0, len(t3), 4):
             out.append(("custom", scopes.SIG3, t3[i:i + 4]))
+        sig4 = ["a", "b", "c", "d"]
+        t4 = [tuple((i * 7 + 3) % 4 for i in range(16)), tuple(0 if i in (3, 12) else 2 for i in range(16)), tuple(i % 3 for i in range(16)),
+              tuple(1 if i < 8 else 0 for i in range(16))]
+        if not quick:
+            base = [0] * 16
+            for i, j in itertools.combinations(range(16), 2):
+                t = list(base)
+                t[i], t[j] = 1, 3
+                t4.append(tuple(t))
+        for i in range(0, len(t4), 2):
+            out.append(("custom", sig4, t4[i:i + 2]))
         reps, _ = scopes.structural_scope(scopes.C2_sub(), scopes.SIG2, 2, ("strong", "weak-finite", "weak-nofinite"), self.seed, 1, minsize=2)
         for i in range(0, len(reps), 4):
             out.append(("sysz", [r[0] for r in reps[i:i + 4]]))
